@@ -386,6 +386,11 @@ func (i *importer) importExtMuxes(dbcExtMuxes []*dbc.ExtendedMux) {
 }
 
 func (i *importer) importNodes(dbcNodes *dbc.Nodes) error {
+	// the BU_ section is optional, a file without it defines no nodes
+	if dbcNodes == nil {
+		dbcNodes = new(dbc.Nodes)
+	}
+
 	for idx, nodeName := range dbcNodes.Names {
 		if nodeName == dbc.DummyNode {
 			continue
